@@ -6,6 +6,7 @@
 import SymfcModel.Model.Inst
 import SymfcModel.Lemmas.LinAlg
 import Mathlib.Data.Matrix.ColumnRowPartitioned
+import SymfcModel.Gen.ApiDataflow
 namespace Symfc.C06
 open Symfc Matrix
 
@@ -74,5 +75,21 @@ theorem returns_a_solution_or_raises {V : Type} (info : Int) (x b v : V)
 theorem unchecked_info_returns_the_rhs :
     solveLinearEquation false 2 (none : Option (List Int)) (some [1, 1]) = .returned (some [1, 1]) := by
   rfl
+
+/-- the API hands the dataset it stores — unchanged, whole, in the stored order — to every solver, and a dispatch branch
+    of `Symfc.solve` does nothing but look the basis sets up, call the solver, select the layout and store the result
+    (facts regenerated from api_symfc.py): the theorems of this file about the fit therefore speak about what a user
+    gets from `Symfc.run` / `Symfc.solve` for the arrays supplied -/
+theorem api_hands_the_stored_dataset_unchanged_to_every_solver :
+    Gen.solveTopLevel = ["self._check_dataset()", "orders = self._check_orders(max_order, orders)", "<dispatch>",
+                         "return self"]
+    ∧ Gen.solverDatasetArgs = List.replicate 6 ["self._displacements", "self._forces"]
+    ∧ Gen.solverBasisArgs = ["basis_set", "basis_set", "basis_set", "[basis_set_o2,basis_set_o3]",
+                             "[basis_set_o3,basis_set_o4]", "[basis_set_o2,basis_set_o3,basis_set_o4]"]
+    ∧ Gen.solveBranchKinds = [["basis", "solve", "select"], ["basis", "solve", "select"], ["basis", "solve", "select"],
+                              ["basis", "basis", "solve", "select", "store", "store"],
+                              ["basis", "basis", "solve", "select", "store", "store"],
+                              ["basis", "basis", "basis", "solve", "select", "store", "store", "store"]] := by
+  decide
 
 end Symfc.C06
